@@ -17,6 +17,8 @@ func genRealtime(g *gen, prop string, budget int, emit func(string)) bool {
 			"rrt 10 4 6 0 : busy@15:45:0 ; busy@30:45:7",
 			"rrt 5 8 4 100 : busy@3:30:1 ; busy@4:30:1 ; busy@5:30:1",
 			"rrt 20 3 3 0 : busy@30:50:2",
+			"rrt 10 2 6 0 : lost@35:3",
+			"rrt 5 3 6 0 : lost@12:2 ; lost@40:5",
 			"rrt 0 4 50 0 : busy@1:40:1",
 		}
 		n := 0
@@ -49,6 +51,12 @@ func genRealtime(g *gen, prop string, budget int, emit func(string)) bool {
 				ctrl := 0
 				if g.r.Intn(2) == 0 {
 					ctrl = 1 + g.r.Intn(65535)
+				}
+				if pause > 0 && g.r.Intn(4) == 0 {
+					// a routing-lost indication: the resent messages are paced like any other
+					bs = append(bs, fmt.Sprintf("lost@%d:%d", at, g.pick(1, 2, 3, 5)))
+					g.stats["rrt.lost"]++
+					continue
 				}
 				bs = append(bs, fmt.Sprintf("busy@%d:%d:%d", at, g.pick(0, 5, 30, 45, 50, 100, 500), ctrl))
 				g.stats["rrt.busy"]++
@@ -209,7 +217,9 @@ func (m *mon) rrt(script, trace string) int {
 			m.fail("send-never-returned", fmt.Sprintf("%s Sends had not returned 12 s after the start", f[1]))
 		case "busy-not-taken":
 			m.fail("busy-not-taken", "the serve loop did not take a busy indication within 8 s")
-		case "done":
+		case "done", "lost":
+		case "decoder-dropped":
+			m.fail("gateway-frame-dropped-by-decoder", "a routing-busy / routing-lost datagram did not survive the client's decoder")
 		default:
 			m.fail("bad-trace", e)
 		}
